@@ -476,7 +476,7 @@ func c08Run(in []string) []string {
 		}
 	}
 	api.RegisterAuth("basic", c08BasicAuth(realm, fn, st, mix))
-	api.ServeError = func(rw http.ResponseWriter, r *http.Request, err error) {
+	serveError := func(rw http.ResponseWriter, r *http.Request, err error) {
 		same := "0"
 		if st.supplied != nil && err == st.supplied {
 			same = "1"
@@ -484,6 +484,12 @@ func c08Run(in []string) []string {
 		st.errcalls = append(st.errcalls, c08ErrClass(err)+"\x00"+same+"\x00"+rw.Header().Get("Content-Type")+"\x00"+rw.Header().Get("WWW-Authenticate"))
 		st.lastErr, st.gotErr = err, true
 		errors.ServeError(rw, r, err)
+	}
+	// the error responder is a public field of the API: set before the Context is made, or (one case in three)
+	// only after Context and handler exist — the responder in force when the error occurs is the one called
+	lateResponder := mix>>7%3 == 1
+	if !lateResponder {
+		api.ServeError = serveError
 	}
 	res, herr := c08Data(dataTok, st, mix)
 	if herr != nil {
@@ -527,6 +533,9 @@ func c08Run(in []string) []string {
 		}
 	}
 	os.Unsetenv("SWAGGER_DEBUG")
+	if lateResponder {
+		api.ServeError = serveError
+	}
 
 	// the Authorization header: other spellings with the same meaning
 	auth := ""
